@@ -56,9 +56,9 @@ TABLE = {
     "C11": ("exhaustive parameter-grid enumeration through the real CLI/file path with structural oracle",
             "Every parameter combination of the grid is run through roberta_generator.main(), the file is read back by the "
             "solver's reader and each game is validated structurally and solved.", "grid bounds; termination only claimed on the solve grid", "2/C11"),
-    "C12": ("exhaustive enumeration of batch histories: all ordered selections of 0-3 games from a 9-game alphabet",
+    "C12": ("exhaustive enumeration of batch histories: all ordered selections of 0-3 games from a 10-game alphabet",
             "run_games on every ordered selection; every entry equals the solo solve of that game; failures are recorded and do not "
-            "affect later games.", "alphabet of 9 games", "2/C12"),
+            "affect later games.", "alphabet of 10 games", "2/C12"),
     "C13": ("exhaustive group action: all state permutations x transition orders x renamings on stopping-game universes, metamorphic oracle",
             "Every presentation of every enumerated stopping game is solved and compared with the base presentation.",
             "tolerance 2*eps(G); boards at 1e-3", "2/C13"),
